@@ -435,3 +435,7 @@ w("C05", "check backend caches on the shared check", BP + "checks.py",
   "        if self.check.element_wise:\n            return check_obj.map(self.check_fn)\n", "        if self.check.element_wise:\n            self.check.statistics[\"_seen\"] = len(check_obj)\n            return check_obj.map(self.check_fn)\n")
 w("C01", "dataframe dtype overrides the index dtype again", BP + "container.py",
   "                if schema.dtype is not None and not is_index_component:", "                if schema.dtype is not None:")
+w("C12", "writer's stat converter ignores collection-valued statistics again", "pandera/io/pandas_io.py",
+  "        if isinstance(stat, (list, tuple)):\n            # collection-valued statistics, e.g. the allowed values of\n            # ``isin``: serialize the elements\n            return [handle_stat_dtype(item) for item in stat]\n", "")
+w("C12", "reader's stat converter ignores collection-valued statistics again", "pandera/io/pandas_io.py",
+  "        if isinstance(stat, (list, tuple)):\n            return [handle_stat_dtype(item) for item in stat]\n        try:", "        try:")
